@@ -12,12 +12,33 @@ OUT = lambda t: parse_type(f"ArrayBase<OwnedRepr<{t}>, Dim<[usize; 1]>>")
 
 def obligations(tier):
     obs = []
-    sq = (1, 2, 3) if tier == "quick" else (1, 2, 3, 4)
+    # a fully symbolic 4x4 (or 4x3 least squares) system does not fit: the fraction-mode polynomials of the last unknowns
+    # have degree > 30 in 20 symbols (z3's normal form went past 12 GB per worker; even a symbolic tridiagonal band took
+    # 840 s with 9 unknowns).  Size 4 is therefore covered with a symbolic right-hand side and a matrix that is concrete
+    # except for ONE symbolic entry (each of the 16 positions in turn; the pivot choices that depend on it fork) or fully
+    # concrete (three matrices that force a row swap at different steps): all four elimination steps and the index logic at
+    # n = 4, with polynomials of small degree.
+    FILL = [[2, 1, 0, 3], [1, 3, 2, 0], [0, 2, 1, 1], [3, 0, 1, 2]]
+    CONC = {"swap at step 0": [[0, 2, 1, 1], [4, 1, 0, 2], [1, 3, 2, 0], [2, 0, 1, 3]],
+            "swap at step 1": [[4, 1, 0, 2], [2, 0.5, 3, 1], [1, 3, 2, 0], [0, 2, 1, 1]],
+            "swaps at steps 0, 1, 2": [[1, 2, 3, 4], [2, 4, 7, 9], [3, 7, 11, 16], [4, 9, 16, 30]]}
     for fn in ("dsolve", "fdsolve"):
-        for n in sq:
+        for n in (1, 2, 3):
             obs.append(dict(id=f"{fn}::<f64> {n}x{n}", fn=fn, ka="F64", kb="F64", r=n, c=n, lsq=False))
-        for (r, c) in ((3, 2),) if tier == "quick" else ((3, 2), (4, 2), (4, 3)):
+        for (r, c) in ((3, 2),) if tier == "quick" else ((3, 2), (4, 2)):
             obs.append(dict(id=f"{fn}::<f64> {r}x{c} least squares", fn=fn, ka="F64", kb="F64", r=r, c=c, lsq=True))
+        if tier == "thorough":
+            none = [[0] * 4 for _ in range(4)]
+            for nm, mat in CONC.items():
+                obs.append(dict(id=f"{fn}::<f64> 4x4 concrete matrix ({nm}), symbolic right-hand side", fn=fn, ka="F64", kb="F64", r=4, c=4, lsq=False, pattern=none, fill=mat))
+            for pi in range(4):
+                for pj in range(4):
+                    pat = [[1 if (i, j) == (pi, pj) else 0 for j in range(4)] for i in range(4)]
+                    obs.append(dict(id=f"{fn}::<f64> 4x4 symbolic entry ({pi},{pj}) and right-hand side", fn=fn, ka="F64", kb="F64", r=4, c=4, lsq=False, pattern=pat, fill=FILL))
+            for (pi, pj) in ((0, 0), (2, 1), (3, 2)):
+                pat = [[1 if (i, j) == (pi, pj) else 0 for j in range(3)] for i in range(4)]
+                obs.append(dict(id=f"{fn}::<f64> 4x3 least squares, symbolic entry ({pi},{pj}) and right-hand side", fn=fn, ka="F64", kb="F64", r=4, c=3, lsq=True,
+                                pattern=pat, fill=[[2, 1, 1], [1, 0, 1], [0, 2, 1], [1, 1, 3]]))
     for k in ("Dual", "Dual2"):
         for n in (1, 2):
             obs.append(dict(id=f"dsolve::<{k}> {n}x{n} shared variable list of 2", fn="dsolve", ka=k, kb=k, r=n, c=n, lsq=False, nv=2 if k == "Dual" else 1))
@@ -50,7 +71,11 @@ def worker(ob):
             d = mk_dual(m, S, tag, names, 1 if kind == "Dual" else 2, arc=arc, inputs=inputs)
             inputs[-1]["kind"] = kind
             return d
-        A = [[entry(f"a{i}{j}", ob["ka"]) for j in range(c_)] for i in range(r_)]
+        def centry(tag, val):
+            inputs.append({"tag": tag, "order": 0, "real": z3.RealVal(val), "names": [], "dual": [], "kind": "F64"})
+            return F(Fraction(val))
+        pat, fill = ob.get("pattern"), ob.get("fill")
+        A = [[entry(f"a{i}{j}", ob["ka"]) if (pat is None or pat[i][j]) else centry(f"a{i}{j}", fill[i][j]) for j in range(c_)] for i in range(r_)]
         b = [entry(f"b{i}", ob["kb"]) for i in range(r_)]
         ta, tb = {"F64": "f64"}.get(ob["ka"], ob["ka"]), {"F64": "f64"}.get(ob["kb"], ob["kb"])
         An, bn = Nd((r_, c_), [x for row in A for x in row]), Nd((r_,), b)
@@ -208,9 +233,9 @@ def run(tier, seed):
     if tot["panics"]:
         tot["undecided"].append(f"panic leaves: {tot['panics'][:3]}")
     standard_finish(PID, ev, obs, results, tot, lambda f: {"site": f.get("ob", "").split(" ")[0]},
-                    bounds={"square": "n = 1..3 (quick) / 1..4 (thorough), every pivot path (row choice by largest |entry|, ties as max_by)", "least_squares": "3x2 (quick), 4x2, 4x3 (thorough): normal equations",
+                    bounds={"square": "n = 1..3 fully symbolic, every pivot path (row choice by largest |entry|, ties as max_by); thorough adds n = 4 with a symbolic right-hand side and a matrix that is concrete (three matrices forcing row swaps at different steps) or concrete except one symbolic entry (each of the 16 positions)", "least_squares": "3x2 (quick), 4x2 fully symbolic and 4x3 with one symbolic entry and a symbolic right-hand side (thorough): normal equations",
                             "dual_entries": "1x1 and 2x2 systems with Dual / Dual2 entries over a shared list of 2 (Dual) / 1 (Dual2) names in A and b; float A with dual b likewise (3x3 in thorough)",
-                            "row_order": "row-swapped system gives the same x for n = 2, 3", "outside": "n > 4; conditioning / rounding (reals); entries with unrelated variable lists"},
+                            "row_order": "row-swapped system gives the same x for n = 2, 3", "outside": "n > 4; fully symbolic 4x4 / 4x3 (the fraction polynomials exceed memory: > 12 GB per worker); conditioning / rounding (reals); entries with unrelated variable lists"},
                     rule="obligation = (solver, element kinds, shape); paths = pivot choices; per path ONE validity query of the algebraic identity A x = b (and its per-name first/second derivative forms) under 'every pivot used is non-zero', discharged without the pivot-choice conditions",
                     assumptions=["reals; divisions encoded division-free (fresh quotient q with q*d = n)", "non-singular along the path = all divisors used are non-zero", "Dual operators are those verified by C01/C02 (interpreted again here)"])
 
